@@ -330,7 +330,8 @@ pub proof fn lemma_bk_add_found(asc: bool, g: Rc<dyn Get>, b: Bk, c: Context)
     assert forall|i: int, j: int| 0 <= i < j < b2.len() implies klt(#[trigger] b2[i].0, #[trigger] b2[j].0) by { assert(b2[i].0 == b[i].0 && b2[j].0 == b[j].0); }
     // the emission
     let q = if asc { p } else { n - 1 - p };
-    assert(ord(asc, b2) =~= s.update(q, e));
+    lemma_ord_update(asc, b, p, e);
+    assert(ord(asc, b2) == s.update(q, e));
     assert(s[q] == b[p]);
     lemma_cat_update(s, q, e);
     lemma_rev_cons(c, d);
@@ -362,17 +363,40 @@ pub proof fn lemma_bk_add_found(asc: bool, g: Rc<dyn Get>, b: Bk, c: Context)
     }
     lemma_ins_split(asc, g, a, bb, c);
 }
-pub proof fn lemma_bk_add_new(asc: bool, g: Rc<dyn Get>, b: Bk, c: Context)
+pub proof fn lemma_ord_insert(asc: bool, b: Bk, p: int, e: (JsonValue, Seq<Context>))
+    requires 0 <= p <= b.len(),
+    ensures ord(asc, b.insert(p, e)) == ord(asc, b).insert(if asc { p } else { b.len() - p }, e),
+{
+    if !asc {
+        let n = b.len() as int;
+        let x = b.insert(p, e).reverse();
+        let y = b.reverse().insert(n - p, e);
+        assert(x.len() == y.len());
+        assert forall|i: int| 0 <= i < x.len() implies x[i] == y[i] by {
+            let bi = n - i;   // index into b.insert(p, e), which has n + 1 elements
+            assert(x[i] == b.insert(p, e)[bi]);
+        }
+        assert(x =~= y);
+    }
+}
+pub proof fn lemma_ord_update(asc: bool, b: Bk, p: int, e: (JsonValue, Seq<Context>))
+    requires 0 <= p < b.len(),
+    ensures ord(asc, b.update(p, e)) == ord(asc, b).update(if asc { p } else { b.len() - 1 - p }, e),
+{
+    if !asc { assert(b.update(p, e).reverse() =~= b.reverse().update(b.len() - 1 - p, e)); }
+}
+// a new bucket at the rank of its key keeps the buckets strictly ascending
+pub proof fn lemma_bk_add_new_inv(g: Rc<dyn Get>, b: Bk, c: Context)
     requires key_order_total(), bk_inv(g, b), g.get_spec(&c) is Some, !bt_found(bk_keys(b), key_of(g, c)),
-    ensures bk_inv(g, bk_add(b, key_of(g, c), c)), emit(asc, bk_add(b, key_of(g, c), c)) == ins(asc, g, emit(asc, b), c),
+    ensures bk_inv(g, bk_add(b, key_of(g, c), c)), 0 <= bt_rank(bk_keys(b), key_of(g, c)) <= b.len(),
+        bk_add(b, key_of(g, c), c) == b.insert(bt_rank(bk_keys(b), key_of(g, c)), (key_of(g, c), seq![c])),
+        forall|i: int| 0 <= i < bt_rank(bk_keys(b), key_of(g, c)) ==> klt(#[trigger] b[i].0, key_of(g, c)),
+        forall|i: int| bt_rank(bk_keys(b), key_of(g, c)) <= i < b.len() ==> klt(key_of(g, c), #[trigger] b[i].0),
 {
     let k = key_of(g, c);
     let keys = bk_keys(b);
     let n = b.len() as int;
     let b2 = bk_add(b, k, c);
-    let s = ord(asc, b);
-    lemma_emit_is_cat(asc, b);
-    lemma_emit_is_cat(asc, b2);
     lemma_keys_sorted(g, b);
     lemma_rank_split(keys, k);
     let p = bt_rank(keys, k);
@@ -386,7 +410,6 @@ pub proof fn lemma_bk_add_new(asc: bool, g: Rc<dyn Get>, b: Bk, c: Context)
     }
     assert forall|i: int| 0 <= i < p implies klt(#[trigger] b[i].0, k) by { assert(keys[i] == b[i].0); }
     lemma_k_refl(k);
-    // the invariant
     assert forall|i: int, m: int| 0 <= i < b2.len() && 0 <= m < b2[i].1.len() implies g.get_spec(&#[trigger] b2[i].1[m]) is Some && keq(b2[i].0, key_of(g, b2[i].1[m])) by {
         if i < p { assert(b2[i] == b[i]); } else if i == p { assert(b2[i] == e); assert(b2[i].1[m] == c); } else { assert(b2[i] == b[i - 1]); }
     }
@@ -397,9 +420,23 @@ pub proof fn lemma_bk_add_new(asc: bool, g: Rc<dyn Get>, b: Bk, c: Context)
         else if i == p { assert(b2[i] == e && b2[j] == b[j - 1]); }
         else { assert(b2[i] == b[i - 1] && b2[j] == b[j - 1]); }
     }
-    // the emission
+}
+pub proof fn lemma_bk_add_new(asc: bool, g: Rc<dyn Get>, b: Bk, c: Context)
+    requires key_order_total(), bk_inv(g, b), g.get_spec(&c) is Some, !bt_found(bk_keys(b), key_of(g, c)),
+    ensures bk_inv(g, bk_add(b, key_of(g, c), c)), emit(asc, bk_add(b, key_of(g, c), c)) == ins(asc, g, emit(asc, b), c),
+{
+    let k = key_of(g, c);
+    let n = b.len() as int;
+    let b2 = bk_add(b, k, c);
+    let s = ord(asc, b);
+    lemma_bk_add_new_inv(g, b, c);
+    lemma_emit_is_cat(asc, b);
+    lemma_emit_is_cat(asc, b2);
+    let p = bt_rank(bk_keys(b), k);
+    let e = (k, seq![c]);
     let q = if asc { p } else { n - p };
-    assert(ord(asc, b2) =~= s.insert(q, e));
+    lemma_ord_insert(asc, b, p, e);
+    assert(ord(asc, b2) == s.insert(q, e));
     lemma_cat_insert(s, q, e);
     assert(rev_seq(seq![c]) =~= seq![c]) by {
         reveal_with_fuel(rev_seq, 2);
@@ -528,4 +565,247 @@ pub proof fn lemma_isort_sorted(asc: bool, g: Rc<dyn Get>, acc: Seq<Context>, r:
         if g.get_spec(&r[0]) is None { lemma_isort_sorted(asc, g, acc, tail(r)); }
         else { lemma_ins_sorted(asc, g, acc, r[0]); lemma_isort_sorted(asc, g, ins(asc, g, acc, r[0]), tail(r)); }
     }
+}
+// ================= C08: the top-N shortcut =================
+pub open spec fn bk_ne(b: Bk) -> bool { forall|i: int| 0 <= i < b.len() ==> (#[trigger] b[i]).1.len() > 0 }
+pub proof fn lemma_bk_add_ne(b: Bk, k: JsonValue, c: Context)
+    requires bk_ne(b), 0 <= bt_rank(bk_keys(b), k) <= b.len(),
+    ensures bk_ne(bk_add(b, k, c)),
+{
+    let keys = bk_keys(b);
+    let b2 = bk_add(b, k, c);
+    if bt_found(keys, k) {
+        let p = bt_idx(keys, k);
+        assert forall|i: int| 0 <= i < b2.len() implies (#[trigger] b2[i]).1.len() > 0 by { if i != p { assert(b2[i] == b[i]); } }
+    } else {
+        let p = bt_rank(keys, k);
+        assert forall|i: int| 0 <= i < b2.len() implies (#[trigger] b2[i]).1.len() > 0 by {
+            if i < p { assert(b2[i] == b[i]); } else if i > p { assert(b2[i] == b[i - 1]); }
+        }
+    }
+}
+pub proof fn lemma_rev_len(d: Seq<Context>)
+    ensures rev_seq(d).len() == d.len(),
+    decreases d.len(),
+{
+    if d.len() > 0 { lemma_rev_len(d.drop_last()); }
+}
+// dropping the row emitted last: the emission loses exactly its last row
+pub proof fn lemma_remove_last(asc: bool, g: Rc<dyn Get>, b: Bk)
+    requires bk_inv(g, b), bk_ne(b), b.len() > 0,
+    ensures bk_inv(g, bk_remove_last(asc, b)), bk_ne(bk_remove_last(asc, b)),
+        emit(asc, b).len() > 0, emit(asc, bk_remove_last(asc, b)) == emit(asc, b).drop_last(),
+{
+    let n = b.len() as int;
+    let i = if asc { n - 1 } else { 0 };
+    let s = ord(asc, b);
+    let b2 = bk_remove_last(asc, b);
+    lemma_emit_is_cat(asc, b);
+    lemma_emit_is_cat(asc, b2);
+    assert(s.last() == b[i]);
+    let bucket = b[i].1;
+    assert(bucket.len() > 0);
+    let d = bucket.subrange(1, bucket.len() as int);
+    assert(bucket =~= seq![bucket[0]].add(d));
+    lemma_rev_cons(bucket[0], d);
+    lemma_rev_len(d);
+    assert(rev_seq(bucket) == rev_seq(d).push(bucket[0]));
+    assert(cat(s) == cat(s.drop_last()).add(rev_seq(bucket)));
+    assert(cat(s).drop_last() =~= cat(s.drop_last()).add(rev_seq(d)));
+    if d.len() == 0 {
+        assert(b2 == b.remove(i));
+        assert(ord(asc, b2) =~= s.drop_last());
+        assert(rev_seq(d) =~= Seq::<Context>::empty());
+        assert(cat(s.drop_last()).add(rev_seq(d)) =~= cat(s.drop_last()));
+        assert forall|x: int, y: int| 0 <= x < y < b2.len() implies klt(#[trigger] b2[x].0, #[trigger] b2[y].0) by {
+            let bx = if x < i { x } else { x + 1 }; let by_ = if y < i { y } else { y + 1 };
+            assert(b2[x] == b[bx] && b2[y] == b[by_]);
+        }
+        assert forall|x: int, m: int| 0 <= x < b2.len() && 0 <= m < b2[x].1.len() implies g.get_spec(&#[trigger] b2[x].1[m]) is Some && keq(b2[x].0, key_of(g, b2[x].1[m])) by {
+            let bx = if x < i { x } else { x + 1 };
+            assert(b2[x] == b[bx]);
+        }
+        assert forall|x: int| 0 <= x < b2.len() implies (#[trigger] b2[x]).1.len() > 0 by { let bx = if x < i { x } else { x + 1 }; assert(b2[x] == b[bx]); }
+    } else {
+        let e = (b[i].0, d);
+        assert(b2 == b.update(i, e));
+        assert(ord(asc, b2) =~= s.drop_last().push(e));
+        assert(ord(asc, b2).drop_last() =~= s.drop_last());
+        assert(ord(asc, b2).last() == e);
+        assert forall|x: int, y: int| 0 <= x < y < b2.len() implies klt(#[trigger] b2[x].0, #[trigger] b2[y].0) by { assert(b2[x].0 == b[x].0 && b2[y].0 == b[y].0); }
+        assert forall|x: int, m: int| 0 <= x < b2.len() && 0 <= m < b2[x].1.len() implies g.get_spec(&#[trigger] b2[x].1[m]) is Some && keq(b2[x].0, key_of(g, b2[x].1[m])) by {
+            if x == i { assert(b2[x].1[m] == bucket[m + 1]); assert(keq(b[i].0, key_of(g, b[i].1[m + 1]))); } else { assert(b2[x] == b[x]); }
+        }
+        assert forall|x: int| 0 <= x < b2.len() implies (#[trigger] b2[x]).1.len() > 0 by { if x != i { assert(b2[x] == b[x]); } }
+    }
+}
+// ---- the capped machine on lists ----
+pub open spec fn cstep(asc: bool, g: Rc<dyn Get>, l: Seq<Context>, cap: Option<nat>, c: Context) -> (Seq<Context>, Option<nat>) {
+    if g.get_spec(&c) is None { (l, cap) } else {
+        let l1 = ins(asc, g, l, c);
+        match cap { None => (l1, None), Some(n) => if n == 0 { (l1.drop_last(), Some(0nat)) } else { (l1, Some((n - 1) as nat)) } }
+    }
+}
+pub open spec fn cisort(asc: bool, g: Rc<dyn Get>, l: Seq<Context>, cap: Option<nat>, r: Seq<Context>) -> Seq<Context>
+    decreases r.len()
+{
+    if r.len() == 0 { l } else { let s = cstep(asc, g, l, cap, r[0]); cisort(asc, g, s.0, s.1, tail(r)) }
+}
+pub proof fn lemma_sort_all_capped(asc: bool, g: Rc<dyn Get>, b: Bk, cap: Option<nat>, r: Seq<Context>)
+    requires key_order_total(), bk_inv(g, b), bk_ne(b),
+    ensures emit(asc, sort_all(g, asc, b, cap, r)) == cisort(asc, g, emit(asc, b), cap, r),
+    decreases r.len(),
+{
+    if r.len() > 0 {
+        let c = r[0];
+        let st = sort_step(g, asc, b, cap, c);
+        if g.get_spec(&c) is None { lemma_sort_all_capped(asc, g, b, cap, tail(r)); }
+        else {
+            let k = key_of(g, c);
+            lemma_bk_add_step(asc, g, b, c);
+            lemma_keys_sorted(g, b);
+            lemma_rank_split(bk_keys(b), k);
+            lemma_bk_add_ne(b, k, c);
+            let b1 = bk_add(b, k, c);
+            if cap is Some && cap->0 == 0 {
+                assert(b1.len() > 0) by { if bt_found(bk_keys(b), k) { assert(b1.len() == b.len()); let p = bt_idx(bk_keys(b), k); } else { assert(b1.len() == b.len() + 1); } }
+                lemma_remove_last(asc, g, b1);
+            }
+            lemma_sort_all_capped(asc, g, st.0, st.1, tail(r));
+        }
+    }
+}
+// ---- on lists: keeping only the first N rows after every insertion == inserting everything and taking the first N at the end ----
+pub proof fn lemma_ins_len(asc: bool, g: Rc<dyn Get>, l: Seq<Context>, c: Context)
+    ensures ins(asc, g, l, c).len() == l.len() + 1,
+    decreases l.len(),
+{
+    if l.len() > 0 && !stays_before(asc, key_of(g, l.last()), key_of(g, c)) { lemma_ins_len(asc, g, l.drop_last(), c); }
+}
+pub proof fn lemma_ins_take(asc: bool, g: Rc<dyn Get>, l: Seq<Context>, c: Context, n: int)
+    requires key_order_total(), sorted_rows(asc, g, l), 0 <= n <= l.len(),
+    ensures ins(asc, g, l.take(n), c).drop_last() == ins(asc, g, l, c).take(n),
+    decreases l.len(),
+{
+    let kc = key_of(g, c);
+    lemma_ins_len(asc, g, l, c);
+    lemma_ins_len(asc, g, l.take(n), c);
+    if l.len() == 0 {
+        assert(l.take(n) =~= l);
+        assert(ins(asc, g, l, c).drop_last() =~= ins(asc, g, l, c).take(0));
+    } else if n == l.len() {
+        assert(l.take(n) =~= l);
+        if stays_before(asc, key_of(g, l.last()), kc) { assert(l.push(c).drop_last() =~= l.push(c).take(n)); }
+        else {
+            let r0 = ins(asc, g, l.drop_last(), c);
+            lemma_ins_len(asc, g, l.drop_last(), c);
+            assert(r0.push(l.last()).drop_last() =~= r0);
+            assert(r0.push(l.last()).take(n) =~= r0);
+        }
+    } else {
+        let dl = l.drop_last();
+        assert(l.take(n) =~= dl.take(n));
+        if stays_before(asc, key_of(g, l.last()), kc) {
+            // every row of the prefix stays before the newcomer too (the list is sorted): the newcomer is appended, then cut off
+            let t = l.take(n);
+            assert forall|j: int| 0 <= j < t.len() implies stays_before(asc, key_of(g, #[trigger] t[j]), kc) by {
+                assert(t[j] == l[j]);
+                assert(stays_before(asc, key_of(g, l[j]), key_of(g, l[l.len() - 1])));
+                lemma_k_le_trans(asc, key_of(g, l[j]), key_of(g, l.last()), kc);
+            }
+            lemma_ins_split(asc, g, t, Seq::empty(), c);
+            assert(t.add(Seq::<Context>::empty()) =~= t);
+            assert(t.push(c).add(Seq::<Context>::empty()) =~= t.push(c));
+            assert(t.push(c).drop_last() =~= t);
+            assert(l.push(c).take(n) =~= t);
+        } else {
+            assert forall|i: int, j: int| 0 <= i < j < dl.len() implies stays_before(asc, key_of(g, #[trigger] dl[i]), key_of(g, #[trigger] dl[j])) by { assert(dl[i] == l[i] && dl[j] == l[j]); }
+            lemma_ins_take(asc, g, dl, c, n);
+            lemma_ins_len(asc, g, dl, c);
+            let r0 = ins(asc, g, dl, c);
+            assert(r0.push(l.last()).take(n) =~= r0.take(n));
+        }
+    }
+}
+pub open spec fn imin(a: int, b: int) -> int { if a < b { a } else { b } }
+// the capped list (lc, cap) tracks the uncapped list lu: it is its first N rows, and cap counts the room that is left
+pub open spec fn tracks(lc: Seq<Context>, cap: Option<nat>, lu: Seq<Context>, n: int) -> bool {
+    lc == lu.take(imin(n, lu.len() as int)) && cap == Some((n - lc.len()) as nat) && 0 <= n
+}
+pub proof fn lemma_cisort_is_prefix(asc: bool, g: Rc<dyn Get>, lc: Seq<Context>, cap: Option<nat>, lu: Seq<Context>, n: int, r: Seq<Context>)
+    requires key_order_total(), sorted_rows(asc, g, lu), tracks(lc, cap, lu, n),
+    ensures ({ let u = isort(asc, g, lu, r); cisort(asc, g, lc, cap, r) == u.take(imin(n, u.len() as int)) }),
+    decreases r.len(),
+{
+    if r.len() > 0 {
+        let c = r[0];
+        if g.get_spec(&c) is None { lemma_cisort_is_prefix(asc, g, lc, cap, lu, n, tail(r)); }
+        else {
+            let lu1 = ins(asc, g, lu, c);
+            lemma_ins_sorted(asc, g, lu, c);
+            lemma_ins_len(asc, g, lu, c);
+            lemma_ins_len(asc, g, lc, c);
+            let st = cstep(asc, g, lc, cap, c);
+            if lu.len() < n {
+                assert(lu.take(lu.len() as int) =~= lu);
+                assert(lc == lu);
+                assert(cap->0 > 0);
+                assert(st.0 == lu1);
+                assert(lu1.take(lu1.len() as int) =~= lu1);
+            } else {
+                assert(cap->0 == 0);
+                lemma_ins_take(asc, g, lu, c, n);
+                assert(st.0 == lu1.take(n));
+            }
+            lemma_cisort_is_prefix(asc, g, st.0, st.1, lu1, n, tail(r));
+        }
+    }
+}
+// THE THEOREM (C08): a sorter that keeps only the first N rows emits exactly the first N rows of the unbounded sorter
+pub proof fn lemma_capped_sort_is_prefix(text: Seq<char>, n: nat, rows: Seq<Context>)
+    requires key_order_total(),
+    ensures ({ let u = sort_spec(text, None, rows); sort_spec(text, Some(n), rows) == u.take(imin(n as int, u.len() as int)) }), // @obl THY.C08.capped_sorter_emits_prefix : C08 C07
+{
+    let asc = sort_asc_of(text); let g = getter_of(text);
+    let e = Seq::<(JsonValue, Seq<Context>)>::empty();
+    assert(bk_inv(g, e) && bk_ne(e));
+    lemma_emit_is_cat(asc, e);
+    assert(ord(asc, e) =~= e);
+    let l0 = Seq::<Context>::empty();
+    assert(emit(asc, e) == l0);
+    lemma_sort_all_capped(asc, g, e, Some(n), rows);
+    lemma_sort_spec_is_isort(text, rows);
+    assert(l0.take(0) =~= l0);
+    lemma_cisort_is_prefix(asc, g, l0, Some(n), l0, n as int, rows);
+}
+// ... so --skip S --take T behind the capped sorter selects the same rows as behind the unbounded one
+pub proof fn lemma_topn_invisible(text: Seq<char>, s: nat, t: nat, rows: Seq<Context>)
+    requires key_order_total(),
+    ensures window(s, Some(t), sort_spec(text, Some(s + t), rows)) == window(s, Some(t), sort_spec(text, None, rows)), // @obl THY.C08.topn_invisible : C08
+{
+    let u = sort_spec(text, None, rows);
+    lemma_capped_sort_is_prefix(text, s + t, rows);
+    if u.len() <= s + t { assert(u.take(u.len() as int) =~= u); }
+    else { lemma_window_of_prefix(s, t, u, (s + t) as int); }
+}
+// ... lifted to repeated --sort-by (only the sorter that feeds the limiter is capped) and to the options as given
+pub proof fn lemma_sorters_topn_invisible(texts: Seq<String>, s: nat, t: nat, rows: Seq<Context>)
+    requires key_order_total(),
+    ensures window(s, Some(t), sorters_spec(texts, Some(s + t), rows)) == window(s, Some(t), sorters_spec(texts, None, rows)),
+    decreases texts.len(),
+{
+    reveal_with_fuel(sorters_spec, 2);
+    if texts.len() == 1 {
+        assert(texts.drop_last().len() == 0);
+        lemma_topn_invisible(texts.last()@, s, t, rows);
+    } else if texts.len() > 1 {
+        lemma_sorters_topn_invisible(texts.drop_last(), s, t, sort_spec(texts.last()@, None, rows));
+    }
+}
+pub proof fn lemma_options_topn_invisible(sort_by: Seq<String>, skip: u64, take: Option<u64>, rows: Seq<Context>)
+    requires key_order_total(), take matches Some(t) ==> skip + t <= u64::MAX,
+    ensures window(skip as nat, take_of(take), sorters_spec(sort_by, cap_spec(skip, take), rows))
+        == window(skip as nat, take_of(take), sorters_spec(sort_by, None, rows)), // @obl THY.C08.shortcut_invisible_for_every_option_set : C08 C03
+{
+    if take is Some { lemma_sorters_topn_invisible(sort_by, skip as nat, take->0 as nat, rows); }
 }
